@@ -96,11 +96,13 @@ theorem longestPrefix_tie (a b : Bytes) : Gen.longestPrefix a b = .ok (Mux.longe
   generalize h : Gen.longestPrefix a b = r
   apply Except.of_wp_eq h (fun r => r = .ok (Mux.longestPrefix a b))
   mvcgen [Gen.longestPrefix]
-  case inv1 | inv2 =>
-    exact Invariant.withEarlyReturnNewDo
-      (onReturn := fun ret _ => ⌜ret = Mux.longestPrefix a b⌝)
-      (onContinue := fun xs st => ⌜(st.2.2 = 123 ∨ st.2.2 = 125) ∧
-        Mux.longestPrefix a b = lpLoop (a.drop xs.prefix.length) (b.drop xs.prefix.length) xs.prefix.length st.1 st.2.1 (st.2.2 == 123)⌝)
+  -- one invariant per copy of the loop (the `if len(s2) < l` in front of it duplicates the continuation; `min` does not)
+  all_goals (first
+    | exact Invariant.withEarlyReturnNewDo
+        (onReturn := fun ret _ => ⌜ret = Mux.longestPrefix a b⌝)
+        (onContinue := fun xs st => ⌜(st.2.2 = 123 ∨ st.2.2 = 125) ∧
+          Mux.longestPrefix a b = lpLoop (a.drop xs.prefix.length) (b.drop xs.prefix.length) xs.prefix.length st.1 st.2.1 (st.2.2 == 123)⌝)
+    | skip)
   all_goals (try mleave)
   all_goals (
     try (have hr := range_split ‹_ = _ ++ _ :: _›)
